@@ -161,8 +161,8 @@ Definition dump_row (G : list (list Q)) (F : list Q) (M : list (list (list Q))) 
   | REq _ | REnt _ _ _ _ => DL [DZ 2; DQ (row_value G F M r)]
   end.
 
-Definition dump_objective (o : objective) : D :=
+Definition dump_objective (G : list (list Q)) (F : list Q) (o : objective) : D :=
   match o with
-  | OMax e => DL [DZ 0; dump_edict e]
-  | OMinW W => DL [DZ 1; dump_qmat W]
+  | OMax e => DL [DZ 0; DQ (evalQ G F e)]       (* Maximize: value of the objective at the tagged point *)
+  | OMinW W => DL [DZ 1; dump_qmat W]           (* Minimize <W,G>: the weight matrix *)
   end.
